@@ -80,7 +80,8 @@ fn value_name(b: &[u8]) -> String {
 
 #[derive(Clone)]
 pub enum Kind {
-    Memory { max_entries: usize },
+    /// policy: 0 = LRU, 1 = LFU, 2 = FIFO; max_bytes = 0: no byte limit
+    Memory { max_entries: usize, policy: u8, max_bytes: usize },
     Disk { subdirs: bool },
     /// MultiLayerCacheImpl over [Memory(1000), Disk]
     Layered,
@@ -343,7 +344,10 @@ impl SchedBody for CacheBody {
             .collect();
         let s: Vec<String> = self.setup.iter().map(COp::name).collect();
         let k = match &self.kind {
-            Kind::Memory { max_entries } => format!("MemoryCache(max_entries={max_entries})"),
+            Kind::Memory { max_entries, policy: 0, max_bytes: 0 } => format!("MemoryCache(max_entries={max_entries})"),
+            Kind::Memory { max_entries, policy, max_bytes } => {
+                format!("MemoryCache(max_entries={max_entries},policy={},max_bytes={max_bytes})", ["lru", "lfu", "fifo"][usize::from(*policy) % 3])
+            }
             Kind::Disk { subdirs } => format!("DiskCache(subdirs={subdirs})"),
             Kind::Layered => "MultiLayerCacheImpl[Memory(1000),Disk]".to_string(),
             Kind::Protocol => "ProtocolCache(DiskCache)".to_string(),
@@ -355,11 +359,19 @@ impl SchedBody for CacheBody {
     }
     fn setup(&self) -> Execution {
         let cache = match &self.kind {
-            Kind::Memory { max_entries } => {
-                let cfg = MemoryCacheConfig::new()
+            Kind::Memory { max_entries, policy, max_bytes } => {
+                let pol = match policy {
+                    1 => EvictionPolicy::Lfu,
+                    2 => EvictionPolicy::Fifo,
+                    _ => EvictionPolicy::Lru,
+                };
+                let mut cfg = MemoryCacheConfig::new()
                     .with_max_entries(*max_entries)
-                    .with_eviction_policy(EvictionPolicy::Lru)
+                    .with_eviction_policy(pol)
                     .with_default_ttl(Duration::from_secs(3600));
+                if *max_bytes > 0 {
+                    cfg = cfg.with_max_memory(*max_bytes);
+                }
                 AnyCache::Mem(MemoryCache::new(cfg).expect("memory cache"))
             }
             Kind::Disk { subdirs } => {
@@ -756,7 +768,7 @@ fn sig_for(class: &str) -> impl Fn(&str, &Trace) -> String + Sync + '_ {
 fn bodies(tier: Tier) -> Vec<CacheBody> {
     let mut out = Vec::new();
     // ---- MemoryCache, non-evicting ----
-    let mem = Kind::Memory { max_entries: 1000 };
+    let mem = Kind::Memory { max_entries: 1000, policy: 0, max_bytes: 0 };
     let single: Vec<COp> = vec![
         COp::Get("k"),
         COp::Contains("k"),
@@ -810,11 +822,39 @@ fn bodies(tier: Tier) -> Vec<CacheBody> {
         }
     }
     // ---- MemoryCache, evicting (capacity 2) ----
-    let small = Kind::Memory { max_entries: 2 };
-    out.push(CacheBody { kind: small.clone(), setup: vec![COp::Put("k", "a"), COp::Put("j", "d")], tasks: vec![vec![COp::Put("m", "b")], vec![COp::Put("n", "c")]], evicting: true });
-    out.push(CacheBody { kind: small.clone(), setup: vec![COp::Put("k", "a"), COp::Put("j", "d")], tasks: vec![vec![COp::Put("m", "b")], vec![COp::Get("k")]], evicting: true });
-    out.push(CacheBody { kind: small.clone(), setup: vec![COp::Put("k", "a"), COp::Put("j", "d")], tasks: vec![vec![COp::Put("m", "b")], vec![COp::Remove("k")]], evicting: true });
-    out.push(CacheBody { kind: small, setup: vec![COp::Put("k", "a"), COp::Put("j", "d")], tasks: vec![vec![COp::Put("m", "b")], vec![COp::Clear]], evicting: true });
+    // a put of a new key picks a victim; the other task reads, replaces (with a value of another
+    // size), removes or clears meanwhile. Values: a=3, b=8, c=5, d=13 bytes.
+    let others: Vec<COp> = vec![
+        COp::Put("n", "c"),
+        COp::Get("k"),
+        COp::Remove("k"),
+        COp::Clear,
+        COp::Put("k", "b"),
+        COp::Put("j", "b"),
+        COp::PutX("k", "c"),
+        COp::Contains("j"),
+    ];
+    let evict_setup = vec![COp::Put("k", "a"), COp::Put("j", "d")];
+    // LFU is left out: with equal access counts its victim follows the iteration order of the
+    // randomly seeded DashMap, a choice the scheduler does not own (replays would diverge).
+    for policy in [0u8, 2] {
+        // entry limit 2
+        let small = Kind::Memory { max_entries: 2, policy, max_bytes: 0 };
+        for (n, o) in others.iter().enumerate() {
+            if tier == Tier::Quick && policy != 0 && n < 4 && n != 0 {
+                continue;
+            }
+            out.push(CacheBody { kind: small.clone(), setup: evict_setup.clone(), tasks: vec![vec![COp::Put("m", "b")], vec![o.clone()]], evicting: true });
+        }
+        // byte limit 20: k(3) + j(13) + m(8) = 24 needs an eviction round in evict_for_bytes
+        let tight = Kind::Memory { max_entries: 1000, policy, max_bytes: 20 };
+        for (n, o) in others.iter().enumerate() {
+            if tier == Tier::Quick && (n == 1 || n == 7) {
+                continue;
+            }
+            out.push(CacheBody { kind: tight.clone(), setup: evict_setup.clone(), tasks: vec![vec![COp::Put("m", "b")], vec![o.clone()]], evicting: true });
+        }
+    }
 
     // ---- DiskCache ----
     for subdirs in [false, true] {
